@@ -46,10 +46,12 @@ pub fn make_pool(workers: usize) -> rayon::ThreadPool {
                 b = b.name(n.to_string());
             }
             b = b.stack_size(thread.stack_size().unwrap_or(16 << 20));
-            b.spawn(move || {
-                sim::thread_begin(id);
-                thread.run();
-                sim::thread_end();
+            sim::with_raw_spawn(|| {
+                b.spawn(move || {
+                    sim::thread_begin(id);
+                    thread.run();
+                    sim::thread_end();
+                })
             })?;
             sim::thread_spawned(id);
             Ok(())
